@@ -1,7 +1,7 @@
 SPECIFICATION Spec
 CONSTANTS
   B = 4
-  Conns = {0, 1}
+  Conns = {0, 1, 2}
   Versions = {20}
   ObjUuids = {101, 102}
   SvcUuids = {201}
@@ -11,13 +11,13 @@ CONSTANTS
   Payloads = {1}
   TypeIds = {301}
   Caps <- CapsOne
-  MaxCookie = 3
+  MaxCookie = 4
   InqBound = 1
-  Kinds = {"CreateObject", "DestroyObject", "CreateService", "AddBusListenerFilter", "RemoveBusListenerFilter", "ClearBusListenerFilters", "StartBusListener", "StopBusListener", "DestroyBusListener"}
-  Faults = {"ends"}
+  Kinds = {"CallFunction", "ClaimChannelEnd", "CreateBusListener", "CreateChannel", "CreateObject", "CreateService", "CreateService2", "DestroyObject", "DestroyService", "StartBusListener", "SubscribeAllEvents", "SubscribeEvent"}
+  Faults = {"ends", "dropped", "sdc", "sdb", "sdi"}
   WrongKinds = {}
   MsgBudget = 3
-  ScriptSel = "lst"
+  ScriptSel = "svc"
   V0 = 20
   V1 = 20
 VIEW view
